@@ -52,11 +52,11 @@ func c05newFx(n int, th base.Threshold) *c05fx {
 		ops: map[string]base.SuffrageExpelOperation{}, vps: map[string]base.Voteproof{}, vpid: map[string]string{}}
 	nodes := make([]base.Node, n)
 	for i := 0; i < n; i++ {
-		l := isaac.NewLocalNode(base.NewMPrivatekey(), base.NewStringAddress(fmt.Sprintf("n%d", i)))
+		l := isaac.NewLocalNode(base.NewMPrivatekey(), base.NewStringAddress(fmt.Sprintf("no0%d", i)))
 		fx.nodes = append(fx.nodes, l)
 		nodes[i] = l
 	}
-	fx.outsider = isaac.NewLocalNode(base.NewMPrivatekey(), base.NewStringAddress("x9"))
+	fx.outsider = isaac.NewLocalNode(base.NewMPrivatekey(), base.NewStringAddress("xx99"))
 	fx.forged = isaac.NewLocalNode(base.NewMPrivatekey(), fx.nodes[n-1].Address())
 	suf, err := isaac.NewSuffrage(nodes)
 	if err != nil {
@@ -230,7 +230,7 @@ func (fx *c05fx) voteproof(id string) base.Voteproof {
 			}
 		} else {
 			for i := 0; i < fx.n; i++ {
-				o := isaac.NewLocalNode(base.NewMPrivatekey(), base.NewStringAddress(fmt.Sprintf("y%d", i)))
+				o := isaac.NewLocalNode(base.NewMPrivatekey(), base.NewStringAddress(fmt.Sprintf("yy0%d", i)))
 				sf := isaac.NewACCEPTBallotSignFact(fx.fact(p, "A", false, nil).(isaac.ACCEPTBallotFact))
 				if err := sf.NodeSign(o.Privatekey(), c05net, o.Address()); err != nil {
 					panic(err)
@@ -341,7 +341,11 @@ func (fx *c05fx) build(v c05vote) (base.BallotSignFact, base.Ballot) {
 	if v.sc {
 		// a suffrage confirm fact repeats the expel facts of the INIT expel voteproof it confirms
 		// (fixture: the last member is expelled, all others signed)
-		efs = fx.expelHashes(fx.voteproof(fx.scVoteproofID(v.p)).(base.HasExpels).Expels())
+		if fx.n > 1 {
+			efs = fx.expelHashes(fx.voteproof(fx.scVoteproofID(v.p)).(base.HasExpels).Expels())
+		} else {
+			efs = fx.expelHashes([]base.SuffrageExpelOperation{fx.expelOp(v.p.h, "x", "n0")})
+		}
 	}
 	sf := fx.signFact(v.who, v.p, v.variant, v.sc, efs, tag)
 	if v.vp == "" {
